@@ -93,8 +93,8 @@ def run(ctx: Ctx) -> None:
     ctx.rule = ("one case per (grid shape, align_corners, hull-invariant affine generator, scale, steps) admitted by Flow.tla (invariance of the "
                 "sample hull checked exactly by TLC for every intermediate step); compared at every grid point in float64 and float32; "
                 "non-trivial = steps > 0 or scale != 1")
-    ctx.tlc("MC_Flow", FLOW_CFG.format(emit="FALSE", inv="INVARIANT Laws\n"), label="laws", timeout=3000)
-    res = ctx.tlc("MC_Flow", FLOW_CFG.format(emit="TRUE", inv=""), label="emit", timeout=3000)
+    ctx.tlc("MC_Flow", FLOW_CFG.format(T="Q" if ctx.tier == "quick" else "T", emit="FALSE", inv="INVARIANT Laws\n"), label="laws", timeout=3000)
+    res = ctx.tlc("MC_Flow", FLOW_CFG.format(T="Q" if ctx.tier == "quick" else "T", emit="TRUE", inv=""), label="emit", timeout=3000)
     cases = [c for c in json_lines(res, key=None) if c["kind"] == "exp"]
     if not cases:
         raise MachineryError("no cases")
